@@ -394,7 +394,7 @@ type c06Route struct {
 	PostObs string                  // extra statements before the final observation (e.g. re-read)
 }
 
-var c06Prelude = "<?php\nclass Box { public $p; }\nfunction ident($x) { return $x; }\n"
+var c06Prelude = "<?php\nclass Box { public $p; function get() { return $this->p; } static $sp; static function sget() { return self::$sp; } }\nfunction ident($x) { return $x; }\nfunction firstOf($o) { return $o->p; }\n$GLOBALS['gstore'] = null;\nfunction gget() { global $gstore; return $gstore; }\n"
 
 var c06Routes = []c06Route{
 	{Name: "assign", Setup: func(l string) string { return "$orig = " + l + ";\n$copy = $orig;\n" }, Orig: "$orig", Copy: "$copy", Sides: []string{"copy", "orig"}},
@@ -404,6 +404,13 @@ var c06Routes = []c06Route{
 	{Name: "outer-store", Setup: func(l string) string { return "$orig = " + l + ";\n$outer = [\"in\" => $orig];\n" }, Orig: "$orig", Copy: "$outer[\"in\"]", Sides: []string{"copy", "orig"}},
 	{Name: "outer-read", Setup: func(l string) string { return "$outer = [\"in\" => " + l + "];\n$copy = $outer[\"in\"];\n" }, Orig: "$outer[\"in\"]", Copy: "$copy", Sides: []string{"copy", "orig"}},
 	{Name: "clone", Setup: func(l string) string { return "$o = new Box();\n$o->p = " + l + ";\n$c = clone $o;\n" }, Orig: "$o->p", Copy: "$c->p", Sides: []string{"copy", "orig"}},
+	// a call that returns stored state itself (not a local): the caller's variable is still a copy
+	{Name: "getter-return", Setup: func(l string) string { return "$o = new Box();\n$o->p = " + l + ";\n$copy = $o->get();\n" }, Orig: "$o->p", Copy: "$copy", Sides: []string{"copy", "orig"}},
+	{Name: "function-returns-property", Setup: func(l string) string { return "$o = new Box();\n$o->p = " + l + ";\n$copy = firstOf($o);\n" }, Orig: "$o->p", Copy: "$copy", Sides: []string{"copy", "orig"}},
+	{Name: "static-getter-return", Setup: func(l string) string { return "Box::$sp = " + l + ";\n$copy = Box::sget();\n" }, Orig: "Box::$sp", Copy: "$copy", Sides: []string{"copy"}},
+	{Name: "closure-return", Setup: func(l string) string {
+		return "$o = new Box();\n$o->p = " + l + ";\n$f = function() use ($o) { return $o->p; };\n$copy = $f();\n"
+	}, Orig: "$o->p", Copy: "$copy", Sides: []string{"copy", "orig"}},
 	{Name: "reference", Setup: func(l string) string { return "$orig = " + l + ";\n$copy = &$orig;\n" }, Orig: "$orig", Copy: "$copy", Shared: true, Sides: []string{"copy", "orig"}},
 	{Name: "handle", Setup: func(l string) string { return "$o = new Box();\n$o->p = " + l + ";\n$h = $o;\n" }, Orig: "$o->p", Copy: "$h->p", Shared: true, Sides: []string{"copy", "orig"}},
 }
@@ -521,7 +528,7 @@ func TestC06(t *testing.T) {
 	cfg := sb.LoadConfig("C06")
 	rec := sb.NewRec(cfg)
 	defer rec.Flush()
-	rec.R.Rule = "complete enumeration of (array shape: empty / list / string-keyed / nested to depth 3 / mixed / strings) x (aliasing route: assign, by-value parameter, return, return of a static local, store into / read from a property, store into / read from an outer array, clone; positive controls: & reference, object handle) x (12 single mutations with a modelled effect + 5 two-step mutations over sparse / unset / popped integer keys judged for independence only) x (mutated side); rapid adds random shapes and sequences of 2-3 mutations. Non-trivial = the mutation changes the mutated side in the model; distinct by (route, shape, mutation, side)."
+	rec.R.Rule = "complete enumeration of (array shape: empty / list / string-keyed / nested to depth 3 / mixed / strings) x (aliasing route: assign, by-value parameter, return, return of a static local, store into / read from a property, store into / read from an outer array, clone, getter / function / static getter / closure returning stored state; positive controls: & reference, object handle) x (12 single mutations with a modelled effect + 5 two-step mutations over sparse / unset / popped integer keys judged for independence only) x (mutated side); rapid adds random shapes and sequences of 2-3 mutations. Non-trivial = the mutation changes the mutated side in the model; distinct by (route, shape, mutation, side)."
 	pool := &sb.Pool{}
 	defer pool.Close()
 	dl := time.Now().Add(budget(cfg, 50, 600))
